@@ -26,7 +26,7 @@ Print Assumptions c01_extract_inverts_print.
      wf_msg, fresh  -- as in C02 (unambiguous metadata, fields under their schema positions, ...);
      vals_canonical -- every value text stored in the object is a fixed point of its type's rendering
                        (so the printed content below IS the content the message was built with; negative
-                       ints and value-changing floats are excluded here and refuted further down);
+                       ints are canonical since a8219b1; value-changing floats are excluded and refuted below);
      c01_flat       -- C01/WfC01.v: no repeating-group ELEMENT (count fields may be present with 0),
                        no Length-typed field besides BodyLength, no trailer field besides CheckSum;
                        every value canonical for its type (render = identity: the vals_canonical of
@@ -49,24 +49,28 @@ Theorem c01_roundtrip_partial : forall c m,
 Proof. exact c01_roundtrip_partial_lemma. Qed.
 Print Assumptions c01_roundtrip_partial.
 
-(* Non-vacuity of c01_roundtrip_partial's hypotheses (a Heartbeat with TestReqID). *)
+(* Non-vacuity of c01_roundtrip_partial's hypotheses, on a Heartbeat whose MsgSeqNum is the NEGATIVE
+   integer -5: since a8219b1 negative ints are canonical, i.e. inside the theorem's domain. *)
 Theorem c01_partial_nonvacuous :
-  render_ok ex_ctx /\ wf_msg ex_ctx ex_hb = true /\ fresh ex_hb = true /\ vals_canonical ex_ctx ex_hb = true /\
-  c01_flat ex_ctx ex_hb = true.
+  render_ok ex_ctx /\ wf_msg ex_ctx ex_hb_neg = true /\ fresh ex_hb_neg = true /\ vals_canonical ex_ctx ex_hb_neg = true /\
+  c01_flat ex_ctx ex_hb_neg = true /\ hdr_val ex_hb_neg 34 = Some [45; 53].
 Proof. exact c01_partial_nonvacuous_lemma. Qed.
 Print Assumptions c01_partial_nonvacuous.
 
-(* Finding F01: negative integers do not survive.  fast_atoi ignores the sign character: a
-   well-formed message built with MsgSeqNum = "-5" is encoded as 34=-25, decoded as -25 and
-   re-encoded differently (-275). *)
-Theorem c01_negative_int_refuted :
-  exists c m b m' b2, render_ok c /\ wf_msg c m = true /\ fresh m = true /\
+(* Finding F01, FIXED in /repo a8219b1: with the rendering of the ORIGINAL fast_atoi (no sign
+   handling: render_default_orig / fast_atoi_i32_orig) negative integers did not survive: a
+   well-formed message built with MsgSeqNum = "-5" was encoded as 34=-25, decoded as -25 and
+   re-encoded differently (-275).  With the repaired function the same message is inside the
+   domain of c01_roundtrip_partial (see c01_partial_nonvacuous). *)
+Theorem c01_negative_int_orig_refuted :
+  exists m b m' b2, render_ok ex_ctx_orig /\ c_render ex_ctx_orig = render_default_orig /\
+    wf_msg ex_ctx_orig m = true /\ fresh m = true /\
     hdr_val m 34 = Some [45; 53] /\
-    roundtrip c m = Ok (b, m', b2) /\
+    roundtrip ex_ctx_orig m = Ok (b, m', b2) /\
     hdr_val m' 34 = Some [45; 50; 53] /\
     list_eqb b b2 = false.
-Proof. exact c01_negative_int_refuted_lemma. Qed.
-Print Assumptions c01_negative_int_refuted.
+Proof. exact c01_negative_int_orig_refuted_lemma. Qed.
+Print Assumptions c01_negative_int_orig_refuted.
 
 (* Finding F02 (conditional on the observed behaviour of the real float conversion, which is
    modelled by C08, not here): with a rendering that prints 0.995 as 0.1 -- what fast_atof /
